@@ -53,6 +53,7 @@ def run(chk):
             dec_lines.append("cmddec %d %s" % (idx, W.hexs(body)))
             dec_cases.append((idx, cls, kw, cmd, body))
     douts = model.batch(dec_lines)
+    eq_bad = None
     for (idx, cls, kw, cmd, body), o in zip(dec_cases, douts):
         got = W.impl_from_body(cls, body)
         want = "A " + W.kw_text(cls, kw)
@@ -64,7 +65,26 @@ def run(chk):
                           {"class": cls.__qualname__, "assignment": W.kw_text(cls, kw), "body": W.hexs(body), "decoded": got}, key=key)
         elif got != o and dec_bad is None:
             dec_bad = (cls.__qualname__, W.kw_text(cls, kw), W.hexs(body), got, o)
+        else:
+            # "a command equal to the original": the library's own notion of equality too (both ways), and equal hashes
+            # for equal commands where the command is hashable at all
+            try:
+                dec = cls.from_frame(W.frame_with_body(cls, body))
+                eq = (dec == cmd) and (cmd == dec) and not (dec != cmd)
+                try:
+                    hq = hash(dec) == hash(cmd)
+                except TypeError:
+                    hq = True
+            except Exception as e:  # noqa
+                eq, hq = False, "raised %s" % type(e).__name__
+            if (not eq or hq is not True) and eq_bad is None:
+                eq_bad = (cls.__qualname__, W.kw_text(cls, kw), W.hexs(body), eq, hq)
+                chk.violation("%s: the command decoded from the encoding of %s has the same parameter values but does not compare "
+                              "equal to the original (==: %s, equal hashes: %s)" % (cls.__qualname__, W.kw_text(cls, kw), eq, hq),
+                              {"class": cls.__qualname__, "assignment": W.kw_text(cls, kw), "body": W.hexs(body)},
+                              key="%s:equality" % cls.__qualname__)
     chk.oblige("tieB:to_frame-vs-enc_params(%d cases)" % len(cases), enc_bad is None, repr(enc_bad)[:300] if enc_bad else "")
+    chk.oblige("monitor:decoded-command-compares-equal-to-the-original", eq_bad is None, repr(eq_bad)[:300] if eq_bad else "")
     chk.oblige("tieB+monitor:from_frame-roundtrip(%d cases)" % len(dec_cases), dec_bad is None, repr(dec_bad)[:300] if dec_bad else "")
     if enc_bad and not chk.violations:
         chk.violation("%s: bytes produced for %s are %s, the schema-order encoding is %s" % enc_bad,
